@@ -27,3 +27,46 @@ func VerifInner(c Connection) hsms.Connection {
 
 	return cc.Connection
 }
+
+// verifRT forwards everything to the real runtime and runs fn immediately before every read of the
+// in-flight gauge by the transport (the only reader is the linktest loop).
+type verifRT struct {
+	hsms.TransportRuntime
+	sr suppressionRuntime
+	fn func()
+}
+
+func (v *verifRT) LinktestSuppression() bool { return v.sr.LinktestSuppression() }
+
+func (v *verifRT) DataMsgInflight() int64 {
+	v.fn()
+
+	return v.sr.DataMsgInflight()
+}
+
+// VerifObserveInflightReads pre-binds the transport's runtime of a not yet opened connection to a
+// forwarding wrapper that calls fn (on the linktest goroutine) right before each read of the
+// in-flight gauge: the rule-2 read before a probe, the failure snapshot after a probe timeout and
+// the final pre-disconnect re-check. This lets a harness make life appear exactly between the
+// snapshot and the re-check. It reports false if c is foreign.
+func VerifObserveInflightReads(c Connection, fn func()) bool {
+	core := VerifInner(c)
+	if core == nil {
+		return false
+	}
+	tr, ok := hsms.VerifTransport(core).(*transport)
+	if !ok {
+		return false
+	}
+	rt, ok := core.(hsms.TransportRuntime)
+	if !ok {
+		return false
+	}
+	sr, ok := core.(suppressionRuntime)
+	if !ok {
+		return false
+	}
+	tr.rt = &verifRT{TransportRuntime: rt, sr: sr, fn: fn}
+
+	return true
+}
